@@ -152,7 +152,7 @@ def errSexp : FErr → Sexp
   | .condInCondition => .list [.atom "err", .atom "condInCondition"]
   | .condNonzeroBranch => .list [.atom "err", .atom "condNonzeroBranch"]
   | .condEmptyKey => .list [.atom "err", .atom "condEmptyKey"]
-  | .zeroNotInF => .list [.atom "err", .atom "zeroNotInF"]
+  | .sumArgFree => .list [.atom "err", .atom "sumArgFree"]
   | .divisionByZero => .list [.atom "err", .atom "divisionByZero"]
   | .malformed w => .list [.atom "err", .atom "malformed", .atom w]
 
